@@ -113,7 +113,7 @@ def run(run: C.Run):
     for info in unexplained[:6]:
         run.violation(info, tag="grid")
     run.cov["rule"] = (
-        "finite configuration grid: reduction (29) x engine (5) x method (4) x reindex (3) x label kind (numpy/dask) x label ndim (1/2) x axis "
+        "finite configuration grid: reduction (29) x engine (5) x method (4) x reindex (3) x label kind (numpy/dask) x label ndim (1/2/3) x axis "
         "(all/last) x expected_groups (given/absent) x block layout (one block / few / one per element > split_every / no requested label present); "
         "quick: all cells of 4 reductions x 3 engines plus a random sample, 1100 method-groups; thorough: the whole grid x 2 canonical inputs; per "
         "cell the outcome class at call time and at compute time and the computed values/labels are recorded, emitted as a Coq table and "
